@@ -270,14 +270,19 @@ func categorical(kvs []*kv) (buckets, error) {
 }
 
 func uniform(kvs []*kv) (buckets, error) {
+	// Only the first value is known to be numerical: values that can't be
+	// compared are reported once the sort has finished.
+	var sortErr error
 	sort.Slice(kvs, func(i, j int) bool {
 		less, err := b6.Less(kvs[i].key, kvs[j].key)
-		if err != nil {
-			panic(err) // Not graceful, but greater should handle all numericals,
-		} // and we do the numerical check in histogram call.
-
+		if err != nil && sortErr == nil {
+			sortErr = err
+		}
 		return less
 	})
+	if sortErr != nil {
+		return nil, sortErr
+	}
 
 	var b buckets
 	if (len(kvs)) <= MaxHistogramBuckets {
